@@ -14,7 +14,14 @@ fn pat_class(o: &O) -> String { let mut ks: Vec<&'static str> = vec![]; fn rec(o
 pub fn run(ctx: &Ctx) -> i32 {
     let th = ctx.tier.thorough();
     let w = if th { 6 } else { 5 };
-    let trees = families::plain(w);
+    let mut trees = families::plain(w);
+    { // bases with two and three assertions (weight 8 and 11), so that regrouped near misses and several same-digest positions occur
+        use crate::refmodel::tree::{assertion as asr, leaf_text as lt, node};
+        let (a, one, k) = (lt("a"), M::Leaf(crate::refmodel::dcbor::V::U(1)), M::Known(1));
+        trees.push(node(a.clone(), vec![asr(a.clone(), one.clone()), asr(one.clone(), a.clone())]));
+        trees.push(node(a.clone(), vec![asr(a.clone(), a.clone()), asr(a.clone(), one.clone()), asr(k.clone(), a.clone())]));
+        trees.push(node(M::Wrapped(Box::new(a.clone())), vec![asr(k.clone(), a.clone()), asr(a.clone(), k.clone())]));
+    }
     let (k0, k1) = (bind::key0(), bind::key1());
     let unrelated_m: Vec<M> = vec![families::plain(3)[5].clone(), M::Wrapped(Box::new(crate::refmodel::tree::leaf_text("zz"))), crate::refmodel::tree::leaf_text("zz"), M::Known(77), crate::refmodel::tree::assertion(crate::refmodel::tree::leaf_text("zp"), crate::refmodel::tree::leaf_text("zo"))];
     let acc = trees.par_iter().enumerate().with_max_len(1).map(|(ti, m)| {
@@ -58,6 +65,14 @@ pub fn run(ctx: &Ctx) -> i32 {
         let n0 = fam.len();
         for i in 0..n0.min(50) { if let Ok(d) = Envelope::try_from_cbor_data(fam[i].0.to_cbor_data()) { fam.push((d, m.digest())) } }
         for um in &unrelated_m { if um.digest() != m.digest() { fam.push((bind::build(um, 0), um.digest())) } }
+        // near misses: the same subject and assertions grouped differently (a node whose subject is a node) - different digest, so neither
+        // equivalent nor identical nor == to the flat form
+        if let M::Node(sub, asrt) = m { if asrt.len() >= 2 {
+            for cut in 1..asrt.len() {
+                let nested = M::Node(Box::new(M::Node(sub.clone(), asrt[..cut].to_vec())), asrt[cut..].to_vec());
+                if nested.digest() != m.digest() { if let Ok(v) = catch(|| bind::build_route(&nested, bind::Route::Decode)) { acc.inc("regrouped_near_misses"); fam.push((v, nested.digest())) } }
+            }
+        } }
         let pats: Vec<O> = fam.iter().map(|x| bind::observe(&x.0)).collect();
         let sds: Vec<Digest> = fam.iter().map(|x| x.0.structural_digest()).collect();
         let n = fam.len();
